@@ -13,7 +13,7 @@ from .sorts import (Sym, SInt, SBool, SBytes, SStr, SVal, SVL, SF64, Val, VL, By
 from . import ops
 from .ops import Unsupported, truth, b2v, i2v, zint, zbool, zseq, to_val, to_vl, Choice, TRUE, FALSE, is_sym
 from .specenv import SFset, SSlice, SComplex, SType, merge_values
-from .engine import (Obj, ExcObj, Raised, BoundMethod, Closure, CheckerError, ops_SymRange, State, Ret, Brk, Cont, SArr,
+from .engine import (EntryRef, Obj, ExcObj, Raised, BoundMethod, Closure, CheckerError, ops_SymRange, State, Ret, Brk, Cont, SArr,
                      AnyException, AnyBaseException,
                      _simp_false, _simp_true)
 
@@ -33,7 +33,8 @@ PURE_BUILTINS = (len, min, max, abs, int, str, bytes, bool, tuple, isinstance, i
 class Lib(object):
     def __init__(self, spec):
         self.spec = spec
-        self.model_classes = {"BytesIO": "BytesIO"}
+        self.model_classes = {"BytesIO": "BytesIO", "Lock": "Lock", "Condition": "Condition", "socket": "socket",
+                              "pipefile": "pipefile"}
         self.used = set()
         self.slice_cache_key = "__slices__"
 
@@ -78,7 +79,7 @@ class Lib(object):
         if (o.oid, name) in st.heap or engine.field_sort(o, name):
             yield st, engine.heap_get(st, o, name)
             return
-        if o.kind in ("joinlist", "list"):
+        if o.kind in ("joinlist", "list", "dict"):
             yield st, BoundMethod(o, None, name)
             return
         cls = o.cls
@@ -219,6 +220,14 @@ class Lib(object):
         if name == "get" and 1 <= len(args) <= 2:
             k = to_val(args[0])
             default = args[1] if len(args) > 1 else None
+            if getattr(d, "valkind", None) == "slot":
+                a = st.fork().assume(z3.Select(h, k)).label("L%d:get hit" % engine.rel_line(node))
+                if engine.feasible(a):
+                    yield a, EntryRef(d, k)
+                b = st.fork().assume(z3.Not(z3.Select(h, k))).label("L%d:get miss" % engine.rel_line(node))
+                if engine.feasible(b):
+                    yield b, default
+                return
             yield st, merge_values(z3.Select(h, k), SVal(z3.Select(m, k)), default)
             return
         if name == "pop" and 1 <= len(args) <= 2:
@@ -755,8 +764,14 @@ class Lib(object):
         if isinstance(o, Obj) and o.kind == "dict":
             m, h = self.dget(engine, st, o)
             kk = to_val(k)
-            for r in engine.with_errs(st, (SVal(z3.Select(m, kk)), [(KeyError, z3.Not(z3.Select(h, kk)))]), node):
+            res = EntryRef(o, kk) if getattr(o, "valkind", None) == "slot" else SVal(z3.Select(m, kk))
+            for r in engine.with_errs(st, (res, [(KeyError, z3.Not(z3.Select(h, kk)))]), node):
                 yield r
+            return
+        if isinstance(o, EntryRef) and type(k) is int and 0 <= k <= 1:
+            m, h = self.dget(engine, st, o.d)
+            l = Val.titems(z3.Select(m, o.key))
+            yield st, SVal(VL.hd(l) if k == 0 else VL.hd(VL.tl(l)))
             return
         if isinstance(o, (tuple, list)) and not is_sym(k):
             try:
@@ -787,8 +802,20 @@ class Lib(object):
         if isinstance(o, Obj) and o.kind == "dict":
             m, h = self.dget(engine, st, o)
             kk = to_val(k)
-            st.heap[(o.oid, "map")] = SArr(z3.Store(m, kk, to_val(v)))
+            if isinstance(v, EntryRef):
+                if v.d is not o:
+                    raise Unsupported("a slot of one table stored into another")
+                vv = z3.Select(m, v.key)           # the very list object that is (or was) stored under v.key
+            else:
+                vv = to_val(v)
+            st.heap[(o.oid, "map")] = SArr(z3.Store(m, kk, vv))
             st.heap[(o.oid, "has")] = SArr(z3.Store(h, kk, True))
+            return [(st, None)]
+        if isinstance(o, EntryRef) and type(k) is int and 0 <= k <= 1:
+            m, h = self.dget(engine, st, o.d)
+            l = Val.titems(z3.Select(m, o.key))
+            new = VL.cons(to_val(v), VL.tl(l)) if k == 0 else VL.cons(VL.hd(l), VL.cons(to_val(v), VL.tl(VL.tl(l))))
+            st.heap[(o.d.oid, "map")] = SArr(z3.Store(m, o.key, Val.VTuple(new)))
             return [(st, None)]
         raise Unsupported("subscript assignment (line %d)" % node.lineno)
 
@@ -938,10 +965,38 @@ class Lib(object):
             yield b, Raised(cls, ExcObj(cls, info={"dynamic": True, "value": v}))
 
     def delete(self, engine, st, t):
-        raise Unsupported("del")
+        if isinstance(t, ast.Subscript) and not isinstance(t.slice, ast.Slice):
+            res = []
+            for st1, o in engine.ev(st, t.value):
+                if isinstance(o, Raised):
+                    res.append((st1, o))
+                    continue
+                for st2, k in engine.ev(st1, t.slice):
+                    if isinstance(k, Raised):
+                        res.append((st2, k))
+                        continue
+                    if isinstance(o, Obj) and o.kind == "dict":
+                        m, h = self.dget(engine, st2, o)
+                        kk = to_val(k) if not isinstance(k, EntryRef) else k.key
+                        bad = st2.fork().assume(z3.Not(z3.Select(h, kk))).label("L%d:del KeyError" % engine.rel_line(t))
+                        if engine.feasible(bad):
+                            res.append((bad, Raised(KeyError, ExcObj(KeyError))))
+                        st2.assume(z3.Select(h, kk))
+                        st2.heap[(o.oid, "has")] = SArr(z3.Store(h, kk, False))
+                        res.append((st2, None))
+                    else:
+                        raise Unsupported("del on %r" % (o,))
+            return res
+        raise Unsupported("del form (line %d)" % t.lineno)
 
     def with_stmt(self, engine, st, cm, optvars, node):
-        raise Unsupported("with")
+        if isinstance(cm, Obj) and cm.cls in ("Lock", "Condition") and optvars is None:
+            # sequential semantics (A-SEQ): acquiring and releasing an uncontended lock has no effect
+            self.used.add("threading.%s as a context manager: sequential no-op (A-SEQ)" % cm.cls)
+            for r in engine.exec_block(st, node.body):
+                yield r
+            return
+        raise Unsupported("with %r" % (cm,))
 
     def contains_obj(self, engine, st, coll, x, node):
         if coll.kind == "dict":
